@@ -85,9 +85,13 @@ class Stats:
                 "private_diff": self.private_diff, "selfcheck": self.selfcheck}
 
 
-def _first_diff(oa, ob):
+def _first_diff(oa, ob, names=None):
+    """First differing public observation; per-probe answers are reduced to the probes that differ."""
     for (la, va), (_lb, vb) in zip(oa, ob):
         if va != vb:
+            if names and isinstance(va, tuple) and isinstance(vb, tuple) and len(va) == len(vb) == len(names):
+                d = [(names[i], va[i], vb[i]) for i in range(len(va)) if va[i] != vb[i]][:4]
+                return la, {repr(k): a for k, a, _b in d}, {repr(k): b for k, _a, b in d}
             return la, va, vb
     return "observation", oa, ob
 
@@ -101,7 +105,7 @@ def _deep_distinguish(fam, a, f):
         cf.add(y)
         oa, of = tuple(fam.observe(ca)), tuple(fam.observe(cf))
         if oa != of:
-            return y, _first_diff(oa, of)
+            return y, _first_diff(oa, of, fam.items + fam.probes)
     return None
 
 
@@ -147,7 +151,7 @@ def check_mergeable(fam, spec, drv, stream, idx, blobs, st, merged):
             continue
         st.exec += 1
         if oa != of:
-            lab, va, vb = _first_diff(oa, of)
+            lab, va, vb = _first_diff(oa, of, fam.items + fam.probes)
             _viol(st, fam, spec, drv, stream, f"{fam.kind}/merge-differs-from-concatenation/{lab}",
                   f"sketch({stream[:i]}).merge(sketch({stream[i:]})) has {lab}={va!r}, "
                   f"the sketch of the concatenated stream has {vb!r}", i)
@@ -164,6 +168,43 @@ def check_mergeable(fam, spec, drv, stream, idx, blobs, st, merged):
                           f"the sketch of the concatenated stream gives {vb!r}", i)
     if len(st.samples) < 1 and n >= 3 and nt:
         st.samples.append({"config": fam.label(), "stream": list(stream)})
+
+
+def check_mergeable_straight(fam, spec, drv, stream, st, merged):
+    """Fallback for check_mergeable without the pickled state graph: every sketch is built from scratch."""
+    n = len(stream)
+    try:
+        of = tuple(fam.observe(fam.build(stream)))
+        v, nt, _out = fam.check(None, stream, "direct", of)
+    except Exception as e:
+        _viol(st, fam, spec, drv, stream, f"{fam.kind}/raised-on-valid-stream/{type(e).__name__}", f"{type(e).__name__}: {e}")
+        return
+    st.exec += 1
+    st.trans += n + 1
+    if nt:
+        st.nontriv += 1
+    for fp, desc in v:
+        _viol(st, fam, spec, drv, stream, fp, desc)
+    hh = h8(of)
+    st.states.add(hh)
+    st.outcomes.add(hh)
+    if not merged:
+        return
+    for i in range(n + 1):
+        try:
+            a = fam.build(stream[:i])
+            a.merge(fam.build(stream[i:]))
+            oa = tuple(fam.observe(a))
+        except Exception as e:
+            _viol(st, fam, spec, drv, stream, f"{fam.kind}/merge-raised/{type(e).__name__}", f"{type(e).__name__}: {e}", i)
+            continue
+        st.exec += 1
+        st.trans += n + 2
+        if oa != of:
+            lab, va, vb = _first_diff(oa, of, fam.items + fam.probes)
+            _viol(st, fam, spec, drv, stream, f"{fam.kind}/merge-differs-from-concatenation/{lab}",
+                  f"sketch({stream[:i]}).merge(sketch({stream[i:]})) has {lab}={va!r}, "
+                  f"the sketch of the concatenated stream has {vb!r}", i)
 
 
 def check_plain(fam, spec, drv, stream, st, merged):
@@ -214,8 +255,14 @@ def _family_for(spec):
         if len(_FAM_CACHE) > 3:
             _FAM_CACHE.clear()
         fam = _FAM_CACHE[key] = make_family(spec)
+        fam.graph = False
         if fam.mergeable:
-            fam.init_graph()
+            try:
+                fam.init_graph()
+                pickle.loads(fam.empty)
+                fam.graph = True
+            except Exception:  # sketches not picklable: straight executions only (slower, same verdicts)
+                fam.graph = False
     return fam
 
 
@@ -224,12 +271,14 @@ def _stream_work(job):
     fam = _family_for(spec)
     st = Stats()
     calls0 = fam.impl_calls
-    graph = fam.mergeable
+    graph = fam.graph
     nsym = len(symbols)
 
     def visit(stream, idx, blobs):
         if graph:
             check_mergeable(fam, spec, drv, stream, idx, blobs, st, merged)
+        elif fam.mergeable:
+            check_mergeable_straight(fam, spec, drv, stream, st, merged)
         else:
             check_plain(fam, spec, drv, stream, st, merged)
 
@@ -322,23 +371,23 @@ def plan(tier):
 
     main, var = (5, 5) if q else (7, 6)
     bloom(8, 2, 0, "int", 4, main)
-    bloom(16, 2, 0, "int", 4, var)
-    bloom(8, 2, 1, "str", 4, var)
-    bloom(12, 2, 1, "mixed", 4, var)
+    bloom(16, 2, 0, "int", 4, main)
+    bloom(8, 2, 1, "str", 4, main)
+    bloom(12, 2, 1, "mixed", 4, main)
     cms(4, 2, 0, "int", 4, main)
-    cms(4, 2, 1, "int", 4, var)
-    cms(4, 2, 0, "str", 4, var)
-    cms(3, 2, 0, "mixed", 4, var)
+    cms(4, 2, 1, "int", 4, main)
+    cms(4, 2, 0, "str", 4, main)
+    cms(3, 2, 0, "mixed", 4, main)
     hll(4, 0, "int", 4, main)
-    hll(4, 1, "int", 4, var)
-    hll(4, 0, "str", 4, var)
+    hll(4, 1, "int", 4, main)
+    hll(4, 0, "str", 4, main)
     if not q:
-        bloom(8, 2, 0, "int", 5, 5)
-        bloom(16, 2, 1, "mixed", 5, 5)
-        cms(4, 2, 0, "int", 5, 5)
-        cms(4, 2, 1, "mixed", 5, 5)
-        hll(4, 0, "int", 5, 5)
-        hll(4, 1, "mixed", 5, 5)
+        bloom(8, 2, 0, "int", 5, 6)
+        bloom(16, 2, 1, "mixed", 5, 6)
+        cms(4, 2, 0, "int", 5, 6)
+        cms(4, 2, 1, "mixed", 5, 6)
+        hll(4, 0, "int", 5, 6)
+        hll(4, 1, "mixed", 5, 6)
     titems = [0, 1, 2, "x"]
     for k in (1, 2, 3):
         P["topk"].append((("TopK", {"k": k, "items": titems}), symbols_of(titems), main, False, {}))
@@ -349,22 +398,26 @@ def plan(tier):
     vals = [-4.0, 0.0, 1.0, 16.0]
     for c in ((5, 20) if q else (2, 5, 20)):
         for mode in ("end", "each"):
+            ml = var if c != 20 else (4 if q else 5)
             P["tdigest"].append((("TDigest", {"c": c, "mode": mode, "items": vals}),
-                                 symbols_of(vals), var, True, {}))
+                                 symbols_of(vals), ml, True, {}))
     if not q:
-        for c in (2, 5):
-            for mode in ("end", "each"):
-                P["tdigest"].append((("TDigest", {"c": c, "mode": mode, "items": vals, "direct_only": 1}),
-                                     symbols_of(vals), 7, False, {}))
+        for mode in ("end", "each"):
+            P["tdigest"].append((("TDigest", {"c": 5, "mode": mode, "items": vals, "direct_only": 1}),
+                                 symbols_of(vals), 7, False, {}))
         v5 = [-4.0, 0.0, 1.0, 1.5, 16.0]
         P["tdigest"].append((("TDigest", {"c": 5, "mode": "end", "items": v5}), symbols_of(v5), 5, True, {}))
         P["tdigest"].append((("TDigest", {"c": 1, "mode": "each", "items": v5}), symbols_of(v5), 5, True, {}))
     ritems = [0, 1, 2, 3]
     for k in (1, 2, 3):
         for seed in (0, 1):
+            ml = var if seed == 0 else (4 if q else 5)
             P["reservoir"].append((("ReservoirSampler", {"k": k, "seed": seed, "items": ritems}),
-                                   symbols_of(ritems), var, True, {}))
-            if not q:
+                                   symbols_of(ritems), ml, True, {}))
+            if q and seed == 1:
+                P["reservoir"].append((("ReservoirSampler", {"k": k, "seed": seed, "items": ritems, "direct_only": 1}),
+                                       symbols_of(ritems), var, False, {}))
+            if not q and seed == 1:
                 P["reservoir"].append((("ReservoirSampler", {"k": k, "seed": seed, "items": ritems, "direct_only": 1}),
                                        symbols_of(ritems), 7, False, {}))
     return P
@@ -465,7 +518,7 @@ def _merkle_work(job):
 def run_merkle(run, tier, seed):
     t0 = time.time()
     hows = [("build", "build"), ("update", "build"), ("churn", "update"), ("build", "churn")]
-    sets = [(("a", "b", "c"), (1, 2)), (("a", "b"), (1, "1", True))]
+    sets = [(("a", "b", "c"), (1, 2)), (("a", "b"), (1, "1", 2))]
     if tier != "quick":
         sets += [(("a", "b", "c", "d"), (1, 2)), (("10", "9", "a", "aa"), (1, "1")),
                  (("a", "b", "c", "d", "e", "f"), (1,)), (("k1", "k2", "k3", "k4", "k5"), (0, ""))]
@@ -623,6 +676,7 @@ def run_wrappers(run, tier, seed):
     bi, bp, _ = L.bloom_alphabet(8, 2, 0, "int", 3)
     ci, cp, _ = L.cms_alphabet(4, 2, 0, "int", 3)
     hi, hp, _, hs = L.hll_alphabet(4, 0, "int", 3)
+    bp, cp = bp[:10], cp[:10]
     # item 0 is deliberately in every wrapper alphabet (a falsy but real value)
     def with0(items):
         return ([0] + [x for x in items if x != 0])[:3]
@@ -735,13 +789,24 @@ def replay(data):
     stream = [tuple(s) for s in rep["stream"]]
     split = rep.get("split")
     print(f"{fam.label()}  alphabet={fam.items}")
-    found = []
 
     def show(sk, title):
         print(f"  {title}:")
         for lab, val in fam.observe(sk):
             print(f"     {lab} = {val!r}")
 
+    try:
+        found = _replay_stream(fam, stream, split, show)
+    except Exception as e:
+        print(f"  !! raised {type(e).__name__}: {e}")
+        return 1
+    for fp, desc in found:
+        print(f"  !! {fp}: {desc}")
+    return 1 if found else 0
+
+
+def _replay_stream(fam, stream, split, show):
+    found = []
     if split is None:
         sk = fam.new()
         for (x, w) in stream:
@@ -762,7 +827,7 @@ def replay(data):
             show(a, "merged")
             show(f, "sketch of the concatenated stream")
             if oa != of:
-                lab, va, vb = _first_diff(oa, of)
+                lab, va, vb = _first_diff(oa, of, fam.items + fam.probes)
                 found.append((f"{fam.kind}/merge-differs-from-concatenation/{lab}", f"{lab}: {va!r} != {vb!r}"))
             else:
                 r = _deep_distinguish(fam, a, f)
@@ -773,6 +838,4 @@ def replay(data):
         else:
             found = fam.check(a, stream, "merged")[0]
             show(a, "merged")
-    for fp, desc in found:
-        print(f"  !! {fp}: {desc}")
-    return 1 if found else 0
+    return found
